@@ -240,7 +240,7 @@ Print Assumptions C07_cfit_old_value_alongside_refuted.
 Theorem C07_cached_fg_central_difference : forall a b c d x h : R, h <> 0 ->
   is_derive (fun u => d * (u * u * u) + a * (u * u) + b * u + c) x (3 * d * (x * x) + 2 * a * x + b) /\
   fd_central (fun u => d * (u * u * u) + a * (u * u) + b * u + c) x h = (3 * d * (x * x) + 2 * a * x + b) + d * (h * h).
-Proof. intros a b c d x h Hh. split; [apply fd_central_cubic_is_derive | apply fd_central_cubic; exact Hh]. Qed.
+Proof. exact cached_fg_central_difference. Qed.
 Print Assumptions C07_cached_fg_central_difference.
 
 Theorem C07_cached_fg_old_refuted :
